@@ -146,6 +146,9 @@ class Engine:
     def _cleanup(self, ident):
         self.cleanups_run[ident] += 1
         self.world.rec('cleanup', ident)
+        if self.opts.get('cleanup_raises') and ident == 0:
+            # a registered cleanup that fails: logged by the process, the other cleanups still run, nothing else changes
+            raise RuntimeError('cleanup 0 failed')
 
     def _entered(self, proc, hook, from_state):
         frm = from_state.LABEL.value if from_state is not None else None
